@@ -699,9 +699,13 @@ func ruleOU3(c *Ctx) {
 	// --- oldest-ready claim: reply map vs claim/state events
 	if rco := c.ErgoFn("RunClaimOldestReady"); rco != nil {
 		var cb *ssa.Function
+		rcoUnit := map[*ssa.Function]bool{rco: true}
+		for _, g := range c.unitOf(rco) {
+			rcoUnit[g] = true
+		}
 		for _, ls := range c.F.LockSites {
-			if ls.Fn == rco {
-				cb = ls.Callback
+			if ls.Fn == rco || rcoUnit[Outermost(ls.Fn)] && cb == nil {
+				cb = ls.Callback // the locked step may live in a private helper (claimOldestReadyOnce) run through a retry wrapper
 			}
 		}
 		var claimEv, stateEv *Emission
@@ -963,6 +967,76 @@ func ruleOU3(c *Ctx) {
 			}
 		} else {
 			c.ok(c.Name(asu), "set-reply|post-state", c.FnPos(asu), "applySetUpdates hands back no item; replies are checked by VD1 (re-read after commit)")
+		}
+	}
+	// --- replies echo the ids the command was given, so the committing step must work on exactly those ids: a key
+	// looked up in graph.Tasks / graph.Tombstones that is computed from the given id (trimmed, upper-cased, resolved
+	// through a helper) records events under another id than the reply names. (A command that answers with the ids of
+	// the post-state it is handed back is free to normalise.)
+	for _, name := range []string{"applySetUpdates", "writeLinkEvents"} {
+		f := c.ErgoFn(name)
+		if f == nil {
+			continue
+		}
+		var cb *ssa.Function
+		for _, ls := range c.F.LockSites {
+			if ls.Fn == f {
+				cb = ls.Callback
+			}
+		}
+		if cb == nil {
+			continue
+		}
+		// replies built from the post-state: every caller's reply id fields are read off this function's result
+		fromPost := true
+		nReply := 0
+		for _, cs := range c.callers[f] {
+			cvv, isC := cs.Call.(*ssa.Call)
+			if !isC {
+				continue
+			}
+			for _, typ := range []string{"ergo.setOutput", "ergo.sequenceEdgeOutput"} {
+				outs := c.fieldStoresOfType(cs.Fn, typ)
+				for _, fl := range []string{"ID", "FromID", "ToID"} {
+					for _, v := range outs[fl] {
+						nReply++
+						if !valueDerivesFromCallToInstr(v, cvv) {
+							fromPost = false
+						}
+					}
+				}
+			}
+		}
+		if nReply > 0 && fromPost {
+			c.ok(c.Name(f), "reply-ids|from-post-state", c.FnPos(f), "every reply id is read off the state this function hands back")
+			continue
+		}
+		k := 0
+		seenFn := map[*ssa.Function]bool{}
+		for _, g := range append([]*ssa.Function{cb}, c.unitOf(cb)...) {
+			if seenFn[g] {
+				continue
+			}
+			seenFn[g] = true
+			eachInstr(g, func(r instrRef) {
+				lk, ok := r.In.(*ssa.Lookup)
+				if !ok {
+					return
+				}
+				n, isG := graphFieldOf(lk.X, 0)
+				if !isG || (n != "Tasks" && n != "Tombstones") {
+					return
+				}
+				if _, isConst := lk.Index.(*ssa.Const); isConst {
+					return
+				}
+				tf := &textFlow{c: c, field: "id", seen: map[ssa.Value]bool{}}
+				tf.walk(lk.Index, 0)
+				k++
+				c.check(len(tf.problems) == 0, c.Name(g), fmt.Sprintf("reply-ids|lookup-key-verbatim#%d", k), c.Pos(lk.Pos()),
+					"the id looked up is the id given (copied, never recomputed)",
+					"the id looked up in graph."+n+" is computed from the id the command was given - "+strings.Join(uniq(tf.problems), "; ")+" - so events are recorded under an id the reply, which echoes what was typed, does not name")
+			})
 		}
 	}
 	// --- sequence: reply edges are the committed edges
